@@ -1,4 +1,4 @@
-(* C05 proofs, part 10 (progress direction): a statement of the class that is well-formed per the reference
+(* C05 proofs, part 10 (progress direction): a statement of the class (LayoutStep.stmt_okx) that is well-formed per the reference
    (pass 1 / pass 2 defined for it, its bytes fall on free addresses) is ACCEPTED by the context: the step returns Ok
    and records no diagnostic.  Together with LayoutStep.sim_step the simulation invariant is kept.
    Extra invariant (Tight): the capacity of the active region ends at 2^32 or at an occupied address, so that
@@ -6,8 +6,8 @@
 From Coq Require Import ZArith NArith PeanoNat List Bool Lia ZifyBool ZifyNat ZifyN String.
 From Trion Require Import Text.Types Expr.I64 Expr.EvalModel Expr.Denote Expr.C08Sound Arm.Instr Arm.DisplayModel Arm.AsmStmtModel Arm.EncodeModel
   Mem.MapModel Mem.DictSpec Mem.MapProofs Mem.MapLemmas Mem.MapOccupied
-  Asm.CtxModel Asm.SegProofs Asm.SegPut Asm.LayoutSpec Asm.LayoutWf Asm.LayoutEval Asm.LayoutEvalC Asm.LayoutInstr Asm.LayoutInstrC
-  Asm.LayoutDict Asm.ScopeProofs Asm.LayoutProofs Asm.LayoutSim Asm.Ctx06Proofs Asm.CtxNoPanic Asm.LayoutStep Asm.LayoutFinal.
+  Asm.CtxModel Asm.SegProofs Asm.SegPut Asm.LayoutSpec Asm.LayoutWf Asm.LayoutEval Asm.LayoutEvalC Asm.LayoutInstr Asm.LayoutInstrC Asm.LayoutInstrD
+  Asm.LayoutDict Asm.ScopeProofs Asm.LayoutProofs Asm.LayoutSim Asm.LayoutStage Asm.Ctx06Proofs Asm.CtxNoPanic Asm.CtxInvCap Asm.LayoutStep Asm.LayoutFinal.
 Import ListNotations.
 Open Scope N_scope.
 
@@ -204,7 +204,7 @@ Qed.
 Definition PendD (E : env) (t : task) : Prop :=
   match t with
   | DataTask d false => den64 (rho E) (de_arg d) <> None
-  | InstrTask ai false => exists a1, ai_ast ai = mkAst [a1] 0 /\ den64 (rho E) a1 <> None
+  | InstrTask ai false => True          (* LayoutSim.PendG already says how the kept operand evaluates in the final table *)
   | _ => False
   end.
 Definition Pd (E : env) (st : state) : Prop := forall ts, local_tasks st = Some ts -> Forall (PendD E) ts.
@@ -359,6 +359,32 @@ Section Prog.
     destruct (hex_decode_pairs s []) as (I1 & _). rewrite (I1 _ Hx). cbn [rev app]. exact ACC.
   Qed.
 
+  (* ---------------- .dfile ---------------- *)
+  Lemma file_prog fsr st cur ek items line col args s' path ps :
+    Sim E st cur ek (gdict E items) -> Tight st -> Pd E st -> path_stack st = path :: ps ->
+    (forall v, args = [AStr v] -> fsr v = fs (resolve_path path v)) ->
+    (match args with
+     | [AStr v] => match fsr v with Some b => place (mkP1 cur ek items) (N.of_nat (List.length b)) (IBytes b) | None => None end
+     | _ => None end) = Some s' ->
+    fresh_item E items (p_items s') ->
+    accepted E (dir_bytes dbg fs st line col DFile args).
+  Proof.
+    intros (ts & ELT & H) HT HP EPS HFs HP1 HF. pose proof H as [R T V C Er Gt A D L P W].
+    destruct args as [|a [|a2 r]]; try dh; destruct a; try dh. rewrite (HFs s eq_refl) in HP1.
+    destruct (fs (resolve_path path s)) as [b|] eqn:FS; [|dh].
+    unfold place in HP1. cbn [p_cur p_env p_items] in HP1.
+    destruct cur as [c|]; [|dh]. destruct (c + N.of_nat (List.length b) <=? 4294967296) eqn:Lp; [|dh].
+    inversion HP1; subst s'. cbn [p_items] in HF. specialize (HF c (IBytes b) b).
+    assert (HF' : forall x, c <= x -> x < c + mlen b -> d_get (gdict E items) x = None) by (intros x X1 X2; apply HF; auto).
+    destruct C as (sg & EA & HI & Ea).
+    pose proof (cap_fresh E st c ek _ ts sg (mlen b) H HT EA ltac:(unfold mlen; lia) HF') as Hcap.
+    unfold dir_bytes. rewrite EA. cbn [arity_check List.length Nat.eqb]. rewrite EPS, FS.
+    rewrite (has_remaining_ok dbg _ _ _ HI).
+    destruct (CtxSeg.len b <=? s_max sg - blen sg) eqn:Lr; [|destruct HI; unfold CtxSeg.len in Lr; lia].
+    rewrite (write_chunks_exact dbg _ _ sg HI); rewrite concat_chunks; [|exact Hcap].
+    cbn [seg_update]. eexists. split; [reflexivity|]. split; [exact Er|]. split; [apply tight_append; auto|]. eapply pd_eq; [|exact HP]. reflexivity.
+  Qed.
+
   (* ---------------- .du8 / .du16 / .du32 ---------------- *)
   Lemma data_prog st cur ek items line col k args s' :
     Sim E st cur ek (gdict E items) -> Tight st -> Pd E st ->
@@ -413,7 +439,7 @@ Section Prog.
 
   Lemma instr_prog st cur ek items line col name args s' :
     Sim E st cur ek (gdict E items) -> Tight st -> Pd E st ->
-    stmt_ok E ek (EInstruction name args) ->
+    stmt_okx fs fs [] E ek (EInstruction name args) ->
     (match instr_size name with Some sz => place (mkP1 cur ek items) sz (IInstr name args) | None => None end) = Some s' ->
     (forall a it, In (a, it) (p_items s') -> pass2_item E a it <> None) ->
     fresh_item E items (p_items s') ->
@@ -443,31 +469,32 @@ Section Prog.
     unfold instr_assemble. cbn [ai_ast ai_addr ai_instr ai_file ai_line ai_col a_args].
     rewrite (first_panic_none st args (ev_ok_st st tbl p ps EL EP)).
     assert (CASE : (exists s1, assemble_args (instr_ev st) true c t (mkAst args 0) = COk iF s1) \/
-                   (exists a a' n, args = [a] /\ is_branch t = true /\ den64 (rho E) a' <> None /\
-                                   assemble_args (instr_ev st) true c t (mkAst args 0) = CDefer n (mkAst [a'] 0))).
-    { destruct OK as [K|[(t' & Et' & HB & HD)|(t' & Et' & HN)]].
+                   (exists pos a a' n, eval_pos t = Some pos /\ nth_error args pos = Some a /\ staged_ok E a /\
+                      assemble_args (instr_ev st) true c t (mkAst args 0) = CDefer n (mkAst (AsmStmtModel.set_nth pos a' args) 0))).
+    { destruct OK as [K|[(t' & pos & Et' & EPo & HD)|(t' & Et' & HN)]].
       - left. exists sF. apply (assemble_args_mono_on args (final_ev E) (instr_ev st) false true); [|exact AF].
         eapply known_ev_le; eauto.
       - rewrite Et in Et'. inversion Et'; subst t'.
-        destruct (branch_one_arg _ _ _ _ _ _ _ HB AF) as (a & ->).
-        destruct (den64 (rho E) a) as [w|] eqn:Dw; [|exfalso; apply (HD a); [now left|exact Dw]].
-        destruct (ctx_eval_den E ek st tbl p ps EL EP TE V a w Dw) as [(ch & CE)|(a' & nm & CE)].
-        + left. exists sF. apply (assemble_args_mono_on [a] (final_ev E) (instr_ev st) false true); [|exact AF].
-          intros x x' [<-|[]] Hx. rewrite (final_ev_value _ _ _ Dw Hx). unfold instr_ev. rewrite CE. reflexivity.
-        + right. exists a, a', nm. split; [reflexivity|]. split; [exact HB|].
-          split; [rewrite (ctx_eval_err_den E ek st tbl p ps EL EP TE V a w a' _ Dw CE); discriminate|].
-          apply branch_defer_fwd; [exact HB|]. unfold instr_ev. rewrite CE. reflexivity.
+        destruct (assemble_args_pos_some _ _ _ _ _ _ _ _ EPo AF) as (a & Na). pose proof (HD a Na) as SO.
+        destruct (assemble_args_ok_complete _ _ _ _ _ _ _ _ _ EPo Na AF) as (v & Ev).
+        destruct (stage_now E ek st tbl p ps EL EP TE V a v SO Ev) as [Now|(a1 & n & Df)].
+        + left. exists sF. apply (assemble_args_mono_pos (final_ev E) (instr_ev st) false true c t args pos a iF sF EPo Na); [|exact AF].
+          intros x Hx. rewrite Ev in Hx. inversion Hx; subst x. exact Now.
+        + right. exists pos, a, a1, n. split; [exact EPo|]. split; [exact Na|]. split; [exact SO|].
+          eapply assemble_args_defer_fwd; eauto.
       - left. rewrite Et in Et'. inversion Et'; subst t'. exists sF. rewrite <- AF. apply no_eval_indep. exact HN. }
-    destruct CASE as [(s1 & AM)|(a & a' & nm & -> & HB & Dn' & AM)]; rewrite AM; cbn [CtxModel.bind].
+    destruct CASE as [(s1 & AM)|(pos & a & a' & nm & EPo & Na & SO & AM)]; rewrite AM; cbn [CtxModel.bind].
     - unfold write_instr. cbn [ai_instr ai_file ai_line ai_col ai_addr]. rewrite EF.
       rewrite Ea, <- (curr_addr_exact _ _ HI) by lia.
       rewrite write_stmt_append; auto; [|rewrite Lb; lia|rewrite Lb; exact Hcap].
       eexists. split; [reflexivity|]. split; [exact Er|]. split; [apply tight_append; auto|]. eapply pd_eq; [|exact HP]. reflexivity.
-    - pose proof (template_branch _ _ Et HB) as TB.
-      assert (PI : partial_instr t (mkAst [a'] 0) = t) by (destruct TB as [(cc & ->)| ->]; reflexivity).
-      destruct (branch_template_encodes t TB) as (nP & bP & EPt).
-      pose proof (enc_bytes_size _ _ _ EPt) as (LP & _).
-      unfold write_instr. cbn [ai_instr ai_file ai_line ai_col ai_addr]. rewrite PI, EPt.
+    - (* the placeholder: the half-filled template encodes because the final statement does *)
+      destruct (assemble_args_ok_complete _ _ _ _ _ _ _ _ _ EPo Na AF) as (v & Ev).
+      destruct (enc_bytes_enc _ _ _ EF) as (hws & ENC).
+      destruct (partial_encodes (final_ev E) false c t args pos a v a' iF sF hws (template_ok _ _ Et) EPo Na Ev (stage_shape E a v SO Ev) AF ENC) as (hws' & EP').
+      destruct (enc_ok_bytes _ _ EP') as (nP & bP & EPt).
+      pose proof (enc_bytes_size _ _ _ EPt) as (LP & _). rewrite partial_isz in LP.
+      unfold write_instr. cbn [ai_instr ai_file ai_line ai_col ai_addr]. rewrite EPt.
       rewrite Ea, <- (curr_addr_exact _ _ HI) by lia.
       rewrite write_stmt_append; auto; [|rewrite len_padding; lia|rewrite len_padding; replace nP with sz by congruence; exact Hcap].
       cbn [CtxModel.bind]. unfold add_task. cbn [local_tasks set_active]. rewrite ELT. cbn [CtxModel.bind].
@@ -475,6 +502,6 @@ Section Prog.
       split; [apply (tight_eq (set_active st (Active (set_buf sg (s_buf sg ++ padding nP))))); [reflexivity|reflexivity|apply tight_append; auto]|].
       intros ts' Hts. cbn [local_tasks set_local_tasks] in Hts. inversion Hts; subst ts'.
       apply Forall_app. split; [apply HP; exact ELT|]. constructor; [|constructor].
-      cbn [PendD ai_ast]. exists a'. split; [reflexivity|exact Dn'].
+      exact I.
   Qed.
 End Prog.
